@@ -128,6 +128,19 @@ pub proof fn lemma_parent_ok(p: Path, q: Path)
         assert(comps(ws_root()) =~= comps(q) + seq![comps(ws_root()).last()]);
     }
 }
+// std: an absolute path starts with a root (or, on Windows, a prefix) component (trusted)
+#[verifier::external_body]
+pub proof fn axiom_abs_starts_with_root(p: Path)
+    ensures is_abs(p) ==> comps(p).len() > 0 && (comps(p)[0] is RootDir || comps(p)[0] is Prefix),
+{}
+
+//@@ fn crates/rip-workspace/src/lib.rs is_plain_name
+//@@ sig
+    ensures ret ==> single_normal(path_of_str(id@)),      // [rewind_to_checkpoint.ids_are_accepted_only_as_plain_names]
+//@@ entry
+    proof { axiom_abs_starts_with_root(path_of_str(id@)); }
+//@@ end
+
 impl Workspace {
     pub open spec fn wf(&self) -> bool {
         &&& self.root == ws_root() && is_abs(self.root) && is_abs(self.checkpoints_dir) && comps(self.root).len() > 0
@@ -149,16 +162,15 @@ impl Workspace {
     //@@ rewrite return Err(err); } Ok(()) ==>> return Err(err); } proof { assert(read_file(metadata_path, payload@)); assert(serde_json::decoded_from(payload@, checkpoint)); assert(record_read(session_id@, checkpoint_id@, checkpoint)); assert(all_restored(*self, checkpoint_root, checkpoint)); } Ok(())
     //@@ sig
         requires
-            self.wf(),
-            single_normal(path_of_str(session_id@)), single_normal(path_of_str(checkpoint_id@)),      // the hook passes ids it found in the session's own list
+            self.wf(),      // the ids are whatever the caller passes: the hook matches them against the `id` FIELD of stored records, which is data (defect F19)
         ensures
             // [rewind_to_checkpoint.every_covered_file_has_the_stored_bytes_or_is_absent]
             ret is Ok ==> exists|cp: Checkpoint, cp_root: Path| record_read(session_id@, checkpoint_id@, cp) && #[trigger] all_restored(*self, cp_root, cp),
     //@@ entry
         proof {
             axiom_plain_literals();
-            lemma_single_normal_clean(path_of_str(session_id@));
-            lemma_single_normal_clean(path_of_str(checkpoint_id@));
+            if single_normal(path_of_str(session_id@)) { lemma_single_normal_clean(path_of_str(session_id@)); }
+            if single_normal(path_of_str(checkpoint_id@)) { lemma_single_normal_clean(path_of_str(checkpoint_id@)); }
             lemma_single_normal_clean(path_of_str("files"@));
             lemma_single_normal_clean(path_of_str("checkpoint.json"@));
         }
